@@ -547,3 +547,91 @@ TRUSTED = []
 LEVEL_TEXT = "Each listed rule kernel is decided by SMT over the real MIR for all inputs; C03 is claimed for these kernels only, not for the pipeline-level iff."
 LEVEL_NOTE = "Partial claim (rule kernels). Uncles, merkle roots, cellbase, PoW hash, DB transaction semantics are outside."
 TECHNIQUE = "symbolic execution of rustc MIR -> integer-theory SMT (cvc5 + z3) with environment symbols"
+
+
+def m12_chain_service_admission(S):
+    """`ChainService::asynchronous_process_block` / `non_contextual_verify` (chain/src/chain_service.rs) -- the door every block from a peer, the miner RPC or the importer passes
+    before it is stored: a block of height >= 1 is written to the store and handed to the orphan broker only after BlockVerifier AND NonContextualBlockTxsVerifier both accepted it
+    (or the caller's Switch disables the non-contextual checks); a rejected block is marked BLOCK_INVALID under its own hash and the error goes back to the submitter, nothing is
+    stored; a store failure forgets the status and reports the error; a height-0 block is never stored: a foreign genesis is marked invalid and refused, the node's own genesis
+    answers 'not new'."""
+    from mir2smt.session_extra import extra_session
+    ob = "C03.m12"
+    S2 = extra_session(S, ["ckb-constant", "ckb-occupied-capacity-core", "ckb-types", "ckb-chain"])
+    try:
+        _m12_body(S2, ob)
+    finally:
+        S2.finish()
+
+
+def _m12_body(S, ob):
+    imp = "chain/src/chain_service.rs"
+    f = [x for x in S.prog.funcs if x.kind == "fn" and x.short == "asynchronous_process_block" and imp in x.name and "{closure" not in x.name]
+    if len(f) != 1:
+        raise Inconclusive(f"asynchronous_process_block: {len(f)} candidates")
+    ctx = S.ctx()
+    ctx.uninterpreted_unknown_calls = True
+    ctx.max_paths = 2000
+    N = ctx.int("block_number", "u64")
+    has_sw, dnc, foreign = ctx.bool("caller_gave_a_switch"), ctx.bool("switch_disables_non_contextual"), ctx.bool("hash_differs_from_own_genesis")
+    ok1, ok2, ok3 = ctx.bool("block_verifier_accepts"), ctx.bool("non_contextual_txs_verifier_accepts"), ctx.bool("store_write_succeeds")
+
+    def nmv(ex, v):
+        v = deref(ex, v)
+        if isinstance(v, EnumV) and isinstance(v.disc, int):
+            return ("Ok(" if v.disc == 0 else "Err(") + ",".join(nmv(ex, x) for x in (v.payload(v.disc) or ())) + ")"
+        if isinstance(v, BoolV):
+            return str(v.t)
+        return getattr(v, "name", None) or type(v).__name__
+
+    def rec(tag, ret=None):
+        def h(ex, c, a, d):
+            ex.log.append(("c03", tag, [nmv(ex, x) for x in a[1:]], list(ex.pc)))
+            return ret(ex, d) if ret else UNIT
+        return h
+    ctx.env = list(E.LOGGING_OFF) + [
+        (E.rx(r"LonelyBlock::block$"), lambda ex, c, a, d: ex.ctx.ref_to(OpaqueV("block", "BlockView"))),
+        (E.rx(r"BlockView::number$"), lambda ex, c, a, d: N),
+        (E.rx(r"BlockView::hash$"), lambda ex, c, a, d: OpaqueV("block_hash", d)),
+        (E.rx(r"Shared::genesis_hash$"), lambda ex, c, a, d: OpaqueV("genesis_hash", d)),
+        (E.rx(r"Byte32 as PartialEq>::ne$"), lambda ex, c, a, d: foreign),
+        (E.rx(r"LonelyBlock::switch$"), lambda ex, c, a, d: mk_option(has_sw.t, OpaqueV("switch", "Switch"), d)),
+        (E.rx(r"Switch::disable_non_contextual$"), lambda ex, c, a, d: dnc),
+        (E.rx(r"Shared::consensus$"), lambda ex, c, a, d: ex.ctx.ref_to(OpaqueV("consensus", "Consensus"))),
+        (E.rx(r"BlockVerifier::<?.*>?::new$|BlockVerifier::new$"), lambda ex, c, a, d: OpaqueV("block_verifier(" + nmv(ex, a[0]) + ")", d)),
+        (E.rx(r"NonContextualBlockTxsVerifier::<?.*>?::new$|NonContextualBlockTxsVerifier::new$"), lambda ex, c, a, d: OpaqueV("txs_verifier(" + nmv(ex, a[0]) + ")", d)),
+        (E.rx(r"BlockVerifier.* as Verifier>::verify$|BlockVerifier::verify$"), rec("block_verifier", lambda ex, d: mk_result(ok1.t, UNIT, OpaqueV("block_error", "Error"), d))),
+        (E.rx(r"NonContextualBlockTxsVerifier(::<.*>)?::verify$"), rec("txs_verifier", lambda ex, d: mk_result(ok2.t, OpaqueV("cycles_fees", "?"), OpaqueV("txs_error", "Error"), d))),
+        (E.rx(r"ChainService::insert_block$"), rec("insert_block", lambda ex, d: mk_result(ok3.t, UNIT, OpaqueV("store_error", "Error"), d))),
+        (E.rx(r"Shared::insert_block_status$"), rec("mark_status")),
+        (E.rx(r"Shared::block_status_map$"), lambda ex, c, a, d: ex.ctx.ref_to(OpaqueV("status_map", "DashMap"))),
+        (E.rx(r"DashMap::<.*>::remove(::<.*>)?$"), rec("forget_status", lambda ex, d: mk_option(False, None, d))),
+        (E.rx(r"LonelyBlock::execute_callback$"), lambda ex, c, a, d: (ex.log.append(("c03", "callback", [nmv(ex, a[1])], list(ex.pc))), UNIT)[1]),
+        (E.rx(r"OrphanBroker::process_lonely_block$"), rec("to_orphan_broker")),
+        (E.rx(r"InternalErrorKind::other|as From<.*>>::from$|as Into<.*>>::into$"), lambda ex, c, a, d: OpaqueV("system_error", d)),
+    ]
+    ps = S.run(ctx, f[0], [ctx.ref_to(OpaqueV("service", "ChainService")), OpaqueV("lonely_block", "LonelyBlock")])
+    S.prove(ctx, ob, "no_panic", [], T.not_(cond_of(panics(ps))))
+    rs = returns(ps)
+
+    def when(pred):
+        return T.or_(*[p.cond() for p in rs if pred([(e[1], e[2]) for e in p.log if e[0] == "c03"])])
+    tags = lambda evs: [t for t, _ in evs]
+    high = T.ge(N.t, 1)
+    skipped = T.and_(has_sw.t, dnc.t)
+    verified = T.or_(skipped, T.and_(ok1.t, ok2.t))
+    S.prove(ctx, ob, "stored_iff_height_at_least_one_and_non_contextual_verification_accepted_or_was_disabled", [], T.iff(when(lambda evs: "insert_block" in tags(evs)), T.and_(high, verified)))
+    S.prove(ctx, ob, "handed_to_the_orphan_broker_iff_also_the_store_write_succeeded", [], T.iff(when(lambda evs: "to_orphan_broker" in tags(evs)), T.and_(high, verified, ok3.t)))
+    S.prove(ctx, ob, "both_non_contextual_verifiers_run_unless_disabled_block_verifier_first", [], T.and_(
+        T.iff(when(lambda evs: "block_verifier" in tags(evs)), T.and_(high, T.not_(skipped))),
+        T.iff(when(lambda evs: "txs_verifier" in tags(evs)), T.and_(high, T.not_(skipped), ok1.t)),
+        bool(all(tags(evs).index("block_verifier") < tags(evs).index("txs_verifier") for evs in [[(e[1], e[2]) for e in p.log if e[0] == "c03"] for p in rs] if "txs_verifier" in tags(evs)))))
+    rejected = lambda evs: ("mark_status" in tags(evs)) and any(t == "mark_status" and a_[0] == "block_hash" and "INVALID" in a_[1].upper() for t, a_ in evs) and any(t == "callback" and a_[0].startswith("Err(") for t, a_ in evs)
+    S.prove(ctx, ob, "a_rejected_block_is_marked_invalid_under_its_own_hash_and_the_error_is_reported", [], T.iff(when(rejected), T.or_(T.and_(high, T.not_(verified)), T.and_(T.not_(high), foreign.t))))
+    S.prove(ctx, ob, "the_reported_error_is_the_verifiers_own", [], bool(all(any(t == "callback" and a_[0] in ("Err(block_error)", "Err(txs_error)") for t, a_ in evs) for evs in [[(e[1], e[2]) for e in p.log if e[0] == "c03"] for p in rs] if ("block_verifier" in tags(evs) and "insert_block" not in tags(evs)))))
+    S.prove(ctx, ob, "a_store_failure_forgets_the_status_reports_the_error_and_stops", [high, verified, T.not_(ok3.t)], when(lambda evs: "forget_status" in tags(evs) and ("callback", ["Err(store_error)"]) in evs and "to_orphan_broker" not in tags(evs)))
+    S.prove(ctx, ob, "own_genesis_answers_not_new_and_is_never_stored", [T.not_(high), T.not_(foreign.t)], when(lambda evs: evs == [("callback", ["Ok(False)"])]))
+    S.witness(ctx, ob, "reach_stored_after_verification", [], T.and_(when(lambda evs: "to_orphan_broker" in tags(evs)), T.not_(skipped)))
+
+
+OBLIGATIONS = OBLIGATIONS + [m12_chain_service_admission]
